@@ -25,10 +25,13 @@ CONSTANTS Peers,        \* names of the peers that may connect
           KALimit,      \* KEEP_ALIVE_LIMIT (2)
           Pipeline,     \* set of allowed numbers of requests sent when a piece is started ({2} in rdest)
           Rates,        \* set of rate values the stats timer may report
-          FrameKinds    \* frame kinds the (adversarial) remote peers may send in this configuration
+          FrameKinds,   \* frame kinds the (adversarial) remote peers may send in this configuration
+          HS0           \* TRUE: connections start with the handshake exchange already done (configurations
+                        \*       that are not about C08/C11 skip it to reach deeper histories)
 
 Pieces == 1..NPieces
 None == 0
+NoConn == "-"       \* "no connection" (comparable with peer names that are strings or model values)
 
 VARIABLES st,      \* manager: piece -> [k: "M"|"R"|"H", n: reservation count]
           mp,      \* manager: connected peer -> Peer record
@@ -51,7 +54,7 @@ NewPeer == [pcs |-> {}, pidx |-> None, amInt |-> FALSE, amCh |-> TRUE, int |-> F
             opt |-> FALSE, dl |-> None, ul |-> None, rated |-> FALSE]
 NoRx == [p |-> None, req |-> {}, nxt |-> 1, bad |-> FALSE]
 NewH(inc) == [alive |-> TRUE, inc |-> inc, hs |-> FALSE, ch |-> TRUE, ka |-> 0, rx |-> NoRx, tx |-> None,
-              buf |-> <<>>, wait |-> FALSE, trig |-> [t |-> "Start"], reply |-> [t |-> "none"]]
+              buf |-> <<>>, wait |-> FALSE, trig |-> [t |-> "Idle"], reply |-> [t |-> "none"]]
 \* (ghost, for C11) due[k]: pieces whose completion was broadcast to k; ann[k]: Have frames written on k
 DeadH == [NewH(FALSE) EXCEPT !.alive = FALSE]
 
@@ -97,13 +100,13 @@ Init == /\ st = [p \in Pieces |-> [k |-> "M", n |-> 0]]
         /\ h = [k \in Peers |-> DeadH]
         /\ bq = [k \in Peers |-> <<>>]
         /\ stored = {}
-        /\ sent = [k |-> None, f |-> <<>>]
+        /\ sent = [k |-> NoConn, f |-> <<>>]
         /\ wire = [k \in Peers |-> [hs |-> FALSE, ch |-> "C"]]
         /\ panic = FALSE
         /\ due = [k \in Peers |-> <<>>]
         /\ ann = [k \in Peers |-> <<>>]
 
-NoSend == sent' = [k |-> None, f |-> <<>>]
+NoSend == sent' = [k |-> NoConn, f |-> <<>>]
 Send(k, fs) == sent' = [k |-> k, f |-> fs]
 \* effect of written frames on what the remote has seen
 WireAfter(k, fs) ==
@@ -128,23 +131,33 @@ Connect(k, inc) ==
   /\ \A i \in 1..Len(mq) : mq[i].k # k              \* the previous incarnation was cleaned up
   /\ mp' = [x \in Conn \cup {k} |-> IF x = k THEN NewPeer ELSE mp[x]]
   /\ bq' = [bq EXCEPT ![k] = <<>>]
-  /\ wire' = [wire EXCEPT ![k] = [hs |-> ~inc, ch |-> "C"]]
+  /\ wire' = [wire EXCEPT ![k] = [hs |-> HS0, ch |-> "C"]]
   /\ ann' = [ann EXCEPT ![k] = <<>>]
-  \* on a connection we opened the task sends our handshake and asks the manager for the bitfield
-  /\ IF inc THEN /\ h' = [h EXCEPT ![k] = NewH(TRUE)]
-                 /\ NoSend /\ UNCHANGED mq
-            ELSE /\ h' = [h EXCEPT ![k] = [NewH(FALSE) EXCEPT !.wait = TRUE]]
-                 /\ Send(k, <<F("Handshake")>>)
-                 /\ Enq(k, "Init", None)
+  \* the connection task is spawned; on a connection we opened it still has to start (HStart)
+  /\ h' = [h EXCEPT ![k] = IF HS0 THEN [NewH(inc) EXCEPT !.hs = TRUE]
+                            ELSE IF inc THEN NewH(TRUE)
+                            ELSE [NewH(FALSE) EXCEPT !.trig = [t |-> "Start"]]]
+  /\ NoSend /\ UNCHANGED mq
   /\ UNCHANGED <<st, round, stored, panic>>
 
 \* the task ends (error, EOF, keep-alive timeout, "end job normally") and reports KillReq
-Exit(k) == /\ h' = [h EXCEPT ![k] = [@ EXCEPT !.alive = FALSE, !.wait = FALSE]]
+Exit(k) == /\ h' = [h EXCEPT ![k] = DeadH]
            /\ Enq(k, "Kill", None)
 
 -----------------------------------------------------------------------------
 (* Connection task, first halves *)
-Idle(k) == ~panic /\ h[k].alive /\ ~h[k].wait
+Idle(k) == ~panic /\ h[k].alive /\ ~h[k].wait /\ h[k].trig.t # "Start"
+
+\* on a connection we opened, the task first sends our handshake and asks the manager for the bitfield
+HStart(k) == /\ ~panic /\ h[k].alive /\ ~h[k].wait /\ h[k].trig.t = "Start"
+             /\ h' = [h EXCEPT ![k] = [@ EXCEPT !.wait = TRUE]]
+             /\ Write(k, <<F("Handshake")>>)
+             /\ Enq(k, "Init", None)
+             /\ UNCHANGED <<st, mp, round, bq, stored, panic>>
+\* ... or the connection cannot be established
+HConnFail(k) == /\ ~panic /\ h[k].alive /\ ~h[k].wait /\ h[k].trig.t = "Start"
+                /\ Exit(k) /\ Quiet
+                /\ UNCHANGED <<st, mp, round, bq, stored, panic>>
 
 NewRx(p) == [p |-> p, req |-> {}, nxt |-> 1, bad |-> FALSE]
 \* request the next n blocks of rx (n may exceed what is left)
@@ -474,7 +487,7 @@ MRotate(order, newOpt) ==
 -----------------------------------------------------------------------------
 (* Connection task, second halves: the reply of the manager arrives *)
 Replied(k) == ~panic /\ h[k].alive /\ h[k].wait /\ h[k].reply.t # "none"
-Resume(k, hk) == h' = [h EXCEPT ![k] = [hk EXCEPT !.wait = FALSE, !.reply = [t |-> "none"]]]
+Resume(k, hk) == h' = [h EXCEPT ![k] = [hk EXCEPT !.wait = FALSE, !.reply = [t |-> "none"], !.trig = [t |-> "Idle"]]]
 
 \* n = number of requests pipelined when a piece is started
 HReply(k, n) ==
@@ -519,16 +532,16 @@ HReply(k, n) ==
                         \o <<F(IF r.amInt THEN "Interested" ELSE "NotInterested")>>)
             /\ UNCHANGED <<mq, bq>>
        [] r.t = "PrepareKill" ->                       \* "end job normally"
-            /\ h' = [h EXCEPT ![k] = [hk EXCEPT !.alive = FALSE, !.wait = FALSE, !.reply = [t |-> "none"]]]
+            /\ h' = [h EXCEPT ![k] = DeadH]
             /\ Enq(k, "Kill", None) /\ Quiet /\ UNCHANGED bq
        [] r.t = "Load" ->
             \* the piece is read from the store; then the request is validated and answered
             IF r.p \notin stored
-            THEN /\ h' = [h EXCEPT ![k] = [hk EXCEPT !.alive = FALSE, !.wait = FALSE, !.reply = [t |-> "none"]]]
+            THEN /\ h' = [h EXCEPT ![k] = DeadH]
                  /\ Enq(k, "Kill", None) /\ Quiet /\ UNCHANGED bq
             ELSE IF hk.trig.ok
                  THEN Resume(k, [hk EXCEPT !.tx = r.p]) /\ Write(k, <<FPiece(r.p, 0)>>) /\ UNCHANGED <<mq, bq>>
-                 ELSE /\ h' = [h EXCEPT ![k] = [hk EXCEPT !.alive = FALSE, !.wait = FALSE, !.tx = r.p, !.reply = [t |-> "none"]]]
+                 ELSE /\ h' = [h EXCEPT ![k] = DeadH]
                       /\ Enq(k, "Kill", None) /\ Quiet /\ UNCHANGED bq
   /\ UNCHANGED <<st, mp, round, stored, panic>>
 
@@ -551,7 +564,7 @@ FrameStep(k) ==
   \/ ~h[k].hs /\ (FrameKinds \ {"Handshake", "KeepAlive", "Bad"}) # {} /\ HReject(k)
 
 HandlerStep(k) ==
-  \/ FrameStep(k) \/ HBroadHave(k) \/ HBroadState(k) \/ HTickKA(k)
+  \/ FrameStep(k) \/ HStart(k) \/ HConnFail(k) \/ HBroadHave(k) \/ HBroadState(k) \/ HTickKA(k)
   \/ \E dl \in Rates, ul \in Rates : HTickStats(k, dl, ul)
   \/ \E n \in Pipeline : HReply(k, n)
 
@@ -601,14 +614,14 @@ BadNeverStored == [][\A k \in Peers : h[k].rx.bad => (stored' = stored \/ \E x \
 \* --- C08 ----------------------------------------------------------------------------------
 \* before the remote handshake was validated only our own handshake and keep-alives are written
 SilentBeforeHandshake ==
-  SentOn # None /\ ~h[SentOn].hs =>
+  SentOn # NoConn /\ ~h[SentOn].hs =>
      \A i \in 1..Len(sent.f) :
         sent.f[i].t \in (IF h[SentOn].inc THEN {"KeepAlive"} ELSE {"Handshake", "Bitfield", "KeepAlive"})
 \* no piece data without a completed handshake, on any connection
 NoDataBeforeHandshake == SentHas("Piece") => h[SentOn].hs
 \* everything else is written only after our own handshake
 OwnHandshakeFirst ==
-  SentOn # None /\ (\E i \in 1..Len(sent.f) : sent.f[i].t \notin {"Handshake", "KeepAlive"}) => wire[SentOn].hs
+  SentOn # NoConn /\ (\E i \in 1..Len(sent.f) : sent.f[i].t \notin {"Handshake", "KeepAlive"}) => wire[SentOn].hs
 
 \* --- C09 ----------------------------------------------------------------------------------
 \* piece data is written only while the peer is unchoked (as the peer has been told, or as the
@@ -671,7 +684,7 @@ PickSound == \A k \in Conn : \A c \in PickSet(k) :
 \* --- C14 ----------------------------------------------------------------------------------
 SlotBound == /\ Cardinality({k \in Conn : ~mp[k].amCh /\ ~mp[k].opt}) <= MaxUnchoked
              /\ Cardinality({k \in Conn : ~mp[k].amCh /\ mp[k].opt}) <= 1
-RotExecuted == round' # round /\ \A k \in Conn : mp[k].rated
+RotExecuted == round' # round /\ DOMAIN mp' = Conn /\ \A k \in Conn : mp[k].rated
 PolicyAfter == /\ \A k \in Conn : ~mp'[k].amCh /\ ~mp'[k].opt => mp[k].int
                /\ \A k \in Conn : ~mp[k].int => mp'[k].amCh
                /\ ~\E a, b \in Conn : /\ mp[a].int /\ mp'[a].amCh
@@ -682,6 +695,12 @@ NoStatePending(k) == /\ ~\E i \in 1..Len(bq[k]) : bq[k][i].t = "state"
                      /\ ~(h[k].wait /\ \E i \in 1..Len(mq) : mq[i].k = k /\ mq[i].c = "Bitfield")
                      /\ ~(h[k].wait /\ h[k].reply.t = "SendState")
 ViewAgreement == \A k \in Conn : h[k].alive /\ NoStatePending(k) => ((wire[k].ch = "C") <=> mp[k].amCh)
+
+\* --- per-step forms of the checks that read `sent` (so that `sent` can be left out of the VIEW) ----------
+C01Step == [][(ServedImpliesStored /\ AdvertisedImpliesStored)']_vars
+C08Step == [][(SilentBeforeHandshake /\ NoDataBeforeHandshake /\ OwnHandshakeFirst)']_vars
+C09Step == [][ServeOnlyUnchoked']_vars
+C10Step == [][RequestsTile']_vars
 
 \* --- C20 ----------------------------------------------------------------------------------
 KaBound == \A k \in Peers : h[k].ka <= KALimit
